@@ -119,4 +119,19 @@ RequiredExact ==
     \A P \in SUBSET DateLetters :
       /\ \A f \in Required(P, walk) : \A k \in ClockDates : DF(f, Filled(P, walk, k)) = DF(f, walk)
       /\ \A f \in P \ Required(P, walk) : \E k \in ClockDates : DF(f, Filled(P, walk, k)) # DF(f, walk)
+---------------------------------------------------------------------------
+\* (order) The helpers are functions of the instant alone: whatever was asked before, and in
+\* whatever order (ascending, descending, repeated, far apart), the answer is Helpers(t).  The
+\* walk above only ever moves forward; this second model visits a set of boundary instants in
+\* EVERY order (the complete graph over them), so that the invariants and both directions of
+\* MonotoneStep are known to hold of the specification itself on every ordered pair -- a real
+\* history in adversarial order that Trace_Calendar rejects is then never an artefact of the spec.
+OrdDays == {0, 58, 59, 60, 365, 366, 24855, NDays - 2, NDays - 1}   \* 24855: 2^31 s after the base instant
+OrdMs   == {0, 1, 999, 1000, 59999, 60000, 299999, 300000, 3599999, 3600000, 43200000, MsPerDay - 2, MsPerDay - 1}
+OrdSet  == {[day |-> d, ms |-> m] : d \in OrdDays, m \in OrdMs}
+OrdInit == now \in OrdSet /\ obs = Helpers(now)
+OrdNext == \E t \in OrdSet : Observe(t)
+OrdSpec == OrdInit /\ [][OrdNext]_vars
+\* the answer does not depend on the path that led to the instant
+FunctionOfInstant == obs = Helpers(now)
 =============================================================================
